@@ -75,13 +75,13 @@ func H01res() {
 		// cut short by an error of another)
 		switch pick(0, 7) {
 		case 1:
-			return "uses ga;"
+			return "uses ga { when \"1\"; if-feature ff; }" // a uses with substatements of its own that closes a cycle
 		case 2:
 			return "uses gb;"
 		case 3:
 			return "uses m:ga;"
 		case 4:
-			return "uses nowhere;" // defined nowhere: the search runs through every include and import
+			return "uses nowhere { status current; reference r; }" // defined nowhere: the search runs through every include and import
 		case 5:
 			return "uses ab:g;" // through the prefix of an import (absent or not written at all)
 		case 6:
@@ -93,7 +93,9 @@ func H01res() {
 	gb := "grouping gb { " + wrap(pick(0, 4), uses()) + "} "
 	targets := []string{"/m:c", "/m:ll", "/m:lf", "/m:ls", "/m:ch", "/m:ch/m:cs", "/m:r", "/m:r/m:input", "/m:r/m:output", "/m:nt", "/m:ad", "/m:missing", "/m:c/m:deep/m:er", "/zz:c"}
 	aug := "augment " + targets[pick(1, len(targets))] + " { " + []string{"leaf added { type string; }", "container added { leaf in { type string; } }", "uses ga;", "case ac { leaf added { type string; } }"}[pick(1, 4)] + " } "
-	inc := []string{"", "include s1; ", "include s1; include s2; ", "include nosuch; ", "include sx; "}[pick(2, 5)]
+	// (the last option: mutually including submodules AND a type that no file defines, so that the
+	// typedef lookup walks the whole include cycle)
+	inc := []string{"", "include s1; ", "include s1; include s2; ", "include nosuch; ", "include sx; ", "include s1; include s2; leaf tl { type defined-nowhere; } typedef tn { type m:also-nowhere; } "}[pick(2, 6)]
 	imp := []string{"", "import n { prefix n; } ", "import absent { prefix ab; } "}[pick(2, 3)]
 	m := `module m { yang-version 1.1; namespace "urn:m"; prefix m; ` + inc + imp + ga + gb +
 		`leaf lf { type string; } leaf-list ll { type string; } container c { leaf x { type string; } } list ls { key k; leaf k { type string; } } ` +
